@@ -45,14 +45,14 @@ TMODES = ['dt', 'dt', 'dta', 'tb', 'tbd', 'tbdt', 'tbdt', 'seq', 'seq', 'shape',
 GENMODE = {'dt': 'dt', 'dta': 'dt', 'tb': 'tb', 'tbd': 'tb', 'tbdt': 'tb', 'seq': 'seq', 'shape': 'shape',
            'dup': 'dup', 'dupr': 'dup', 'dupd': 'dup'}
 HAZ_FOR = {
-    'dt': ['dt_whole_and_member', 'dt_alloc_lbound', 'dt_allocated_inq'],
-    'dta': ['dt_whole_and_member', 'dt_alloc_lbound'],
+    'dt': ['dt_whole_and_member', 'dt_alloc_lbound', 'dt_allocated_inq', 'dt_whole_passed_on'],
+    'dta': ['dt_whole_and_member', 'dt_alloc_lbound', 'dt_whole_passed_on'],
     'tb': ['tb_generic', 'tb_nested_function'], 'tbd': ['tb_generic'],
     'tbdt': ['tb_nested_function', 'tb_generic'],
     'seq': ['seq_span', 'seq_kw', 'seq_offset2d'],
     'shape': ['shape_lbound', 'shape_section', 'shape_two_callers', 'shape_member_dim', 'shape_star_deferred',
               'shape_star_literal_index'],
-    'dup': ['dup_spec_use', 'dup_diff_bounds'], 'dupr': ['dup_spec_use'],
+    'dup': ['dup_spec_use', 'dup_diff_bounds', 'dup_kw'], 'dupr': ['dup_spec_use', 'dup_kw'], 'dupd': ['dup_kw'],
 }
 
 
@@ -79,7 +79,7 @@ def case_flags(rng, idx):
     f['assumed_shape'] = gm == 'shape' or rng.random() < 0.3
     f['lb0_dummies'] = rng.random() < 0.3
     f['dups'] = gm == 'dup'
-    f['kw_calls'] = rng.random() < 0.25 and gm in ('tb', 'dup', 'shape', 'dt')
+    f['kw_calls'] = rng.random() < 0.25 and gm in ('tb', 'shape', 'dt')
     hz = None
     # one case in 6 carries a hazard construct (known / suspected defect mechanisms stay in their slice)
     if idx % 6 == 5 and tmode in HAZ_FOR:
@@ -90,6 +90,8 @@ def case_flags(rng, idx):
         f['tb_nested'] = f['tb_function'] = True
     if hz == 'tb_generic':
         f['tb_generic'] = True
+    if hz == 'dup_kw':
+        f['kw_calls'] = True
     if hz in ('dt_whole_and_member',):
         f['nest'] = max(f['nest'], 2)
     return tmode, f
